@@ -6,10 +6,17 @@ EXTENDS FindActions, TraceLib
 
 CfgOf(in) == [mode |-> in.cfg.mode, min |-> in.cfg.min, max |-> in.cfg.max,
               depth |-> FALSE, sorted |-> TRUE, prune |-> {}]
-InDomain(in, obs) == DeleteDom(in.tree, CfgOf(in), in.roots) /\ EmptyNames(in.roots) = {}
+InDomain(in, obs) ==
+  /\ DeleteDom(in.tree, CfgOf(in), in.roots) /\ EmptyNames(in.roots) = {}
+  /\ (("altquit" \in DOMAIN in /\ in.altquit) => WalkRoots(in.tree, [CfgOf(in) EXCEPT !.depth = TRUE], in.roots).errs = 0)
+
+\* "altquit": PRE ( -delete -printf .. -o -quit ) - the first removal that fails ends the run (and still decides the
+\* exit status); judged where the walk itself meets no error
+AltQuit(in) == "altquit" \in DOMAIN in /\ in.altquit
+RunOf(in) == IF AltQuit(in) THEN DeleteRunQ(in.tree, CfgOf(in), in.roots, in.pre) ELSE DeleteRun(in.tree, CfgOf(in), in.roots, in.pre)
 
 Conforms(in, obs) ==
-  LET run == DeleteRun(in.tree, CfgOf(in), in.roots, in.pre) IN
+  LET run == RunOf(in) IN
   /\ "panic" \notin DOMAIN obs
   /\ obs.matched = run.matched                      \* same set, same depth-first order as the twin run reports
   /\ obs.deleted = run.deleted                      \* -delete true exactly where the removal succeeded
@@ -20,7 +27,7 @@ Conforms(in, obs) ==
   \* -delete is false exactly where the removal failed: an alternative action of the same expression sees those entries
   /\ ("notdel" \in DOMAIN obs => obs.notdel = run.failed)
 
-Describe(in) == LET run == DeleteRun(in.tree, CfgOf(in), in.roots, in.pre) IN
+Describe(in) == LET run == RunOf(in) IN
                 [matched |-> run.matched, deleted |-> run.deleted, failed |-> run.failed,
                  left |-> [i \in DOMAIN in.tree |-> i \notin run.gone]]
 Beyond(in) == FALSE
